@@ -160,7 +160,7 @@ def main():
                      "kind_free_text": "repository-specific static analyser over go/types + go/ssa (x/tools v0.29.0): wrap-aware linear-form bounds prover, effect/alias analysis, ordering/typestate rules, wire-slot tables, registry/constant tables"}],
         "checks": checks,
         "not_applicable": [{"property_id": p, "reason": NA.get(p, REASON_WIP)} for p in props if p not in CHECKS],
-        "notes": "Static-analysis family only; nothing executes code of /repo (the thorough tier runs the Go compiler with a diagnostic flag and re-runs the analyser on scratch copies). run.sh first self-tests the engines on /verif/fixtures (exit 2 on failure). known_findings.json: 14 fixed entries, 1 known entry (C15, D15). See DESIGN.md, in particular section 8 (as built).",
+        "notes": "Static-analysis family only; nothing executes code of /repo (the thorough tier runs the Go compiler with a diagnostic flag and re-runs the analyser on scratch copies). run.sh first self-tests the engines on /verif/fixtures (exit 2 on failure). known_findings.json: fixed entries for the 16 repaired defects D1-D13 and D16-D18, 1 known entry (C15, D15). See DESIGN.md, in particular section 8 (as built).",
     }
     json.dump(m, open(os.path.join(HERE, 'MANIFEST.json'), 'w'), indent=1)
     print("claimed:", sorted(CHECKS))
